@@ -2,7 +2,7 @@
 //! complete data equals the spectrum created for the remaining populations alone.
 
 use crate::{
-    cli::{run_sfs, Scratch, Stdin},
+    cli::{run_sfs, samples_spellings, Scratch, Stdin},
     createmodel::{all_rows, pop_sizes, sample_arg, Cls},
     enumerate::{sample_maps, subsets},
     gen::{to_vcf, CallSet},
@@ -43,7 +43,14 @@ pub fn run_create_relation(rep: &mut Report, tier: Tier, scratch: &Scratch) {
     let _ = tier;
     let res = par_map(cases.len(), |i| {
         let (m, rem) = &cases[i];
-        let joint = run_sfs(&["create", "-s", &sample_arg(m), &path_s], Stdin::Null, scratch);
+        // the joint spectrum over every spelling of the sample list in turn (list, list in parts,
+        // samples file with LF / CRLF line ends, with and without the last one)
+        let spellings = samples_spellings(&sample_arg(m), scratch);
+        let (spelling, spelled) = &spellings[i % spellings.len()];
+        let mut jargs: Vec<&str> = vec!["create"];
+        jargs.extend(spelled.iter().map(|s| s.as_str()));
+        jargs.push(&path_s);
+        let joint = run_sfs(&jargs, Stdin::Null, scratch);
         let marg = if joint.ok() {
             run_sfs(
                 &["view", "-m", &join_usizes(rem, ",")],
@@ -67,7 +74,7 @@ pub fn run_create_relation(rep: &mut Report, tier: Tier, scratch: &Scratch) {
             Some((
                 "C04|cli|create-then-marginalize-differs".to_string(),
                 format!(
-                    "create -s {} | view -m {} = {a:?} but create -s {} = {b:?}",
+                    "create -s {} (as {spelling}) | view -m {} = {a:?} but create -s {} = {b:?}",
                     sample_arg(m),
                     join_usizes(rem, ","),
                     sample_arg(&reduced)
@@ -75,6 +82,7 @@ pub fn run_create_relation(rep: &mut Report, tier: Tier, scratch: &Scratch) {
                 J::obj([
                     ("kind", J::s("c04-create")),
                     ("samples", J::s(sample_arg(m))),
+                    ("spelling", J::s(*spelling)),
                     ("remove", J::usizes(rem)),
                     ("vcf", J::s(String::from_utf8_lossy(&vcf))),
                 ]),
@@ -90,7 +98,7 @@ pub fn run_create_relation(rep: &mut Report, tier: Tier, scratch: &Scratch) {
         evaluations: n,
         nontrivial: n,
         note: format!(
-            "all {} maps of 4 samples with >=2 populations x every proper subset of populations, {}-record complete call set",
+            "all {} maps of 4 samples with >=2 populations x every proper subset of populations, {}-record complete call set; the joint run takes the sample list in 7 spellings in turn (list, list in parts, samples file with LF / CRLF / mixed line ends, with and without the final one)",
             maps.len(),
             cs.records.len()
         ),
